@@ -62,12 +62,15 @@ mod m {
 }
 // static dependency inversion
 #[entrait(InvImpl, delegate_by = Sel)]
-pub trait Inv { fn inv(&self, a: u64) -> u64; async fn inv_async(&self, a: u64) -> u64; }
+pub trait Inv { fn inv(&self, a: u64) -> u64; async fn inv_async(&self, a: u64) -> u64; async fn inv_lt<'a>(&self, s: &'a str) -> &'a str; fn inv_lt_sync<'a>(&self, s: &'a str) -> &'a str; }
 pub struct Block;
 #[entrait]
 impl InvImpl for Block {
     fn inv(_d: &impl std::any::Any, a: u64) -> u64 { a + 3 }
     async fn inv_async(_d: &impl std::any::Any, a: u64) -> u64 { Yield(false).await; a + 4 }
+    // an explicit lifetime parameter on a method of the block (seed R15C14)
+    async fn inv_lt<'a>(_d: &impl std::any::Any, s: &'a str) -> &'a str { Yield(false).await; &s[1..] }
+    fn inv_lt_sync<'a>(_d: &impl std::any::Any, s: &'a str) -> &'a str { &s[2..] }
 }
 impl Sel<App> for App { type Target = Block; }
 
@@ -99,6 +102,8 @@ fn main() {
     same_allocs!("in_mod_async", block_on(m::in_mod_async(&app, 1)), block_on(app.in_mod_async(1)));
     same_allocs!("inv", Block::inv(&app, 1), app.inv(1));
     same_allocs!("inv_async", block_on(Block::inv_async(&app, 1)), block_on(app.inv_async(1)));
+    same_allocs!("inv_lt", block_on(Block::inv_lt(&app, "abc")), block_on(app.inv_lt("abc")));
+    same_allocs!("inv_lt_sync", Block::inv_lt_sync(&app, "abc"), app.inv_lt_sync("abc"));
     // C12: output type is exactly the function's (type-checked by the annotations), Send by default
     let v: u64 = block_on(require_send(app.async_no_alloc(4)));
     let s: String = block_on(require_send(app.async_alloc(2)));
@@ -107,6 +112,6 @@ fn main() {
     let x: u64 = block_on(require_send(app.inv_async(4)));
     let n: u64 = block_on(app.not_send(6));
     if (v, s.as_str(), u, w, x, n) != (5, "xx", (), 10, 8, 6) { println!("C12-PROBE-FAIL outputs {v} {s} {w} {x} {n}"); bad += 1; }
-    println!("C12-C14-PROBE cases=18 failed={bad}");
+    println!("C12-C14-PROBE cases=20 failed={bad}");
     std::process::exit(if bad == 0 { 0 } else { 1 });
 }
